@@ -263,6 +263,9 @@ struct Model<'a> {
     cfg: Cfg,
     /// calibration failed (svgdx rejected the flat document): scenario is skipped
     broken: bool,
+    /// the other reading of a group attribute which holds an occurrence: evaluated once, for
+    /// the group, and every reader sees that value (instead of once more per reader)
+    eager_groups: bool,
     /// draws where svgdx's stream and the Pcg32 reference disagree
     pcg_mismatch: u64,
     draws: u64,
@@ -393,7 +396,7 @@ impl<'a> Model<'a> {
                     let v = self.beacon(0);
                     self.obs.push((format!("lz{j}=\"|data"), v.to_string()));
                     for r in 0..*reads {
-                        let v = self.beacon(0);
+                        let v = if self.eager_groups { v } else { self.beacon(0) };
                         self.obs.push((format!("b{j}r{r}_|data"), v.to_string()));
                     }
                 }
@@ -858,6 +861,7 @@ impl Engine for C14 {
             trace: Vec::new(),
             cfg: cfg.clone(),
             broken: false,
+            eager_groups: false,
             pcg_mismatch: 0,
             draws: 0,
             templates: &scn.templates,
@@ -975,7 +979,49 @@ impl Engine for C14 {
                         keys.push(k.clone());
                     }
                 }
+                // The statement can be read two ways for an occurrence held by a GROUP attribute
+                // that children read as a variable: once per reader (what svgdx does: the
+                // attribute is a variable holding the expression text) or once, for the group.
+                // Either is accepted, consistently for the whole document.
+                let matches_model = |mm: &Model| -> bool {
+                    let mut ks: Vec<&String> = Vec::new();
+                    for (k, _) in &mm.obs {
+                        if !ks.contains(&k) {
+                            ks.push(k);
+                        }
+                    }
+                    ks.iter().all(|k| {
+                        let (key, site) = k.split_once('|').unwrap();
+                        let want: Vec<&String> = mm.obs.iter().filter(|(kk, _)| kk == *k).map(|(_, v)| v).collect();
+                        let got = observe(&s, &tree, key, site);
+                        got.len() == want.len() && got.iter().zip(want.iter()).all(|(g, w)| g == *w)
+                    })
+                };
+                let has_group_lazy = serde_json::to_string(&scn.items).map(|t| t.contains("GroupLazy")).unwrap_or(false);
+                let mut eager_ok = false;
+                if has_group_lazy && !matches_model(&m) {
+                    let mut m2 = Model {
+                        rng: Pcg32::seed_from_u64(scn.seed),
+                        trace: Vec::new(),
+                        cfg: cfg.clone(),
+                        broken: false,
+                        eager_groups: true,
+                        pcg_mismatch: 0,
+                        draws: 0,
+                        templates: &scn.templates,
+                        obs: Vec::new(),
+                        counts: Vec::new(),
+                    };
+                    m2.exec(&scn.items, None);
+                    eager_ok = !m2.broken && matches_model(&m2);
+                    if eager_ok {
+                        res.stats.probe("group_attribute_occurrence_evaluated_once_for_the_group");
+                    }
+                }
                 'keys: for k in &keys {
+                    if eager_ok {
+                        break;
+                    }
                     let (key, site) = k.split_once('|').unwrap();
                     let want: Vec<&String> = m.obs.iter().filter(|(kk, _)| kk == k).map(|(_, v)| v).collect();
                     let got = observe(&s, &tree, key, site);
